@@ -10,8 +10,15 @@ Pipeline
     prediction given the real emitter's `analyze_scalar` verdict; `yaml_load` of the text vs `resolveLoad`;
     `json.dumps` escaping vs `jsonEscape`; the loader on JSON string literals / random double-quoted texts vs
     `yamlDqUnescape`; real representer outputs are members of the image languages.
+ 3b. whole documents (c01_doc.py): emitDoc vs yaml_dump character for character, loadDoc vs yaml_load on emitted and
+    perturbed layouts; jDump vs the json dumpers, jsonLoad vs the YAML loader on JSON texts and perturbed JSON texts;
+    skip_default (c01_skip.py): delKV vs _dump_delete_default_entries, reparse vs parse_object on parsers built from
+    generated structures, and the property itself wherever the model's `leafStable` holds.
  4. property oracle on real parsers (independent of the model): generated parsers over the type grammar x accepted
-    values x {dump yaml/json/json_indented, skip_default, --print_config fed back through --cfg, save+parse_path}.
+    values x {dump yaml/json/json_indented, skip_default, --print_config fed back through --cfg, save+parse_path,
+    histories of skip_default dumps on one parser whose defaults change in between (default config file rewritten /
+    replaced, action.default assigned), multi-file save with sub-config files after overrides + parse_path}; generated
+    documents through the real dump / load functions of the three formats.
  5. replay of the repaired F01 demo and of every open finding's witness.
 """
 from __future__ import annotations
@@ -25,23 +32,38 @@ import random
 import subprocess
 
 from ..lib.common import REPO, VERIF, Ctx, MachineryError, derive_seed, repo_python_path
+from . import c01_doc as D
 from . import c01_e2e as E
+from . import c01_skip as S
 
 MANIFEST = {
     "engine": "Scalar",
     "technique": "regenerated resolver automata (regex -> DFA -> joint automaton) + Lean 4 `decide +kernel` certificates lifted to all strings "
-                 "by induction + Lean proof of the JSON-string/YAML-scanner round trip + differential correspondence + end-to-end oracle on generated parsers",
-    "text": "Theorems in lean/Jap/Props/C01.lean prove for ALL strings: whatever the Dumper class used by yaml_dump resolves as a plain str the loader class "
-            "used by yaml_load resolves as str (C01_resolver_agreement); every text the representers can write for int/float/bool/null, and every RFC 8259 "
-            "number, is resolved by the loader with that tag; a JSON string literal written by json.dumps with the extracted ensure_ascii is read back "
-            "unchanged by the YAML double-quoted scanner for every string without DEL/C1/U+2028/U+2029/U+FFFE/U+FFFF (the excluded class is an open finding, "
-            "with kernel-checked counterexamples). The automata are regenerated on every run from the live classes; the typed<->plain layer (ser/adapt) "
-            "belongs to C02/C10; the whole property is evaluated end to end on generated real parsers.",
+                 "by induction + Lean models of PyYAML's emitter (scalar styles, block layout of nested dict/list), of libyaml's reading of that text and of "
+                 "JSON text (flow collections, double-quoted scalars, simple-key rule), with round-trip theorems for whole documents of any depth + "
+                 "differential correspondence against yaml_dump / yaml_load / the json dumpers (emitted and perturbed texts) + end-to-end oracle on generated parsers",
+    "text": "Theorems in lean/Jap/Props/C01.lean prove, for ALL inputs: (scalars) whatever the Dumper class used by yaml_dump resolves as a plain str the loader "
+            "class used by yaml_load resolves as str (C01_resolver_agreement); every text the representers can write for int/float/bool/null, and every RFC 8259 "
+            "number, is resolved by the loader with that tag; the text the emitter writes for a single-line str (plain / single / double quoted, value or simple "
+            "key) is scanned back to that str. (documents) C01_yaml_doc_roundtrip: for every nested dict/list of scalars at any depth the block-style text of "
+            "yaml_dump (indent 2, indentless sequences under keys, [] / {}, simple keys; model emitDoc, corresponded character for character with the real dump) "
+            "is read back by the loader model (lines -> column-tagged tokens -> recursive descent; corresponded with yaml_load on emitted and perturbed "
+            "layouts) as the same value, same key order, every scalar with its tag; the structural layer needs no hypothesis, the text layer is defined "
+            "whenever no str is multi-line or folded and every key is a simple key. C01_json_doc_roundtrip_partial: the same for json and json_indented "
+            "read back by the YAML loader, for str keys, strings without DEL/C1/U+2028/U+2029/U+FFFE/U+FFFF, finite floats and key literals of at most 1024 "
+            "characters; each excluded class is an open finding with a kernel-checked counterexample (C01-json-long-key is new). The dump configuration the "
+            "models hard-code is pinned to the extracted one (C01_tie_dump_configuration). The automata and the dump kwargs are regenerated on every run from "
+            "the live classes; the typed<->plain layer (ser/adapt) belongs to C02/C10; the whole property is evaluated end to end on generated real parsers "
+            "and on generated documents through the three formats.",
     "level_note": "Trusted: Lean kernel; axioms propext/Quot.sound/Classical.choice only; harness/lib/regex2dfa.py (regex -> DFA, validated against `re` on every "
                   "run) and the joint-automaton exploration (tag columns validated against the real Resolver.resolve); the image languages written down in the "
-                  "extractor (every real representer output observed is checked to be a member); PyYAML's emitter/scanner outside scalar resolution "
-                  "(analyze_scalar is a parameter; plain/quoted text is read back verbatim: exercised by the correspondence and the oracle); libyaml's "
-                  "double-quoted scanning as modelled by yamlDqUnescape (corresponded on generated texts). yaml_comments (ruyaml) and toml are outside the model.",
+                  "extractor (every real representer output observed is checked to be a member); that the Lean models of PyYAML's emitter / libyaml's scanner "
+                  "and block/flow parser agree with the third-party code beyond the generated cases (corresponded on every run: scalar analysis and styles "
+                  "exhaustively on short indicator strings, documents and perturbed layouts at random; the constants are PyYAML's, not regenerated). A scalar is "
+                  "(tag, text): the construction of int/float objects from their text is outside the document model (the real constructors are used when "
+                  "comparing). Outside the models, seen by the oracle only: multi-line and folded strings, complex keys (`? `), yaml_load's post-processing of "
+                  "top-level mappings whose values are all None, _dump_cleanup_actions (per-action serialisation, removal of config/link/None entries), the "
+                  "subclass-spec branch of skip_default, sub-config files of multi-file save, yaml_comments (ruyaml), toml.",
     "engines": ["Scalar"],
 }
 
@@ -249,6 +271,8 @@ FINDING_TEXT = {
     "C01-comments-requoted": "yaml_comments output is re-serialised by ruyaml (YAML 1.2): quotes needed by the YAML 1.1 loader are dropped",
     "C01-comments-float-digits": "yaml_comments output: ruyaml re-writes floats with fewer digits",
     "C01-comments-int-key": "yaml_comments: a str dict key that YAML 1.2 reads as int makes add_yaml_comments raise",
+    "C01-save-subconfig-unserialised": "multi-file save writes the content of a sub-config file (value with __path__) without serialising its leaves: Enum / set / registered-type objects make save raise",
+    "C01-json-long-key": "json formats: a dict key whose JSON literal is longer than 1024 characters is not a simple key for libyaml; the loader rejects the dump",
 }
 
 
@@ -589,6 +613,10 @@ def variant_name(v):
         return "--print_config" + ("=" + v["flags"] if v["flags"] else "")
     if v["kind"] == "print_config_history":
         return "--print_config history %r on one parser object" % (v["seq"],)
+    if v["kind"] == "skip_default_history":
+        return "history of dump(skip_default=True) on one parser with the defaults changing through %s" % v["change"]
+    if v["kind"] == "save_subconfig":
+        return "save(format=%s, multifile) with sub-config files + parse_path" % v["format"]
     return "save(format=%s)+parse_path" % v["format"]
 
 
@@ -605,13 +633,15 @@ def enough(ctx):
 # ================================================================ the check
 def run(ctx: Ctx):
     repo_python_path()
-    ctx.rule = ("scalar layer: strings generated from the extracted automata (accepted words of every resolver/image DFA, words where either side is "
+    ctx.rule = ("documents: nested dict/list of scalars (depth <= 4; keys and values from the same string sources, ints, floats, bools, None; long, "
+                "multi-line and non-simple keys included), non-trivial = distinct emitted text of depth >= 2 on which model and real dump agree; "
+                "scalar layer: strings generated from the extracted automata (accepted words of every resolver/image DFA, words where either side is "
                 "non-str, one-edit neighbours, YAML indicators), non-trivial = distinct non-empty string that the dumper writes plain (yaml) or that "
                 "round-trips through the json text; end to end: (parser spec, accepted configuration) pairs over the type grammar, non-trivial = accepted "
                 "configuration with at least one non-default leaf, distinct by canonical JSON of the case")
     ctx.assumptions = [
         "Y1: the YAML scanner returns a plain scalar verbatim and un-quotes a quoted scalar to the original text (exercised by the correspondence; U+0085 is a recorded exception)",
-        "Y2: mappings/sequences round-trip structurally through PyYAML (exercised by the end-to-end oracle only)",
+        "Y2: mappings/sequences round-trip structurally through PyYAML: now a theorem about the model (C01_yaml_doc_roundtrip, C01_json_doc_roundtrip_partial); the model is corresponded with yaml_dump / yaml_load / json dumpers on generated documents and perturbed layouts",
         "analyze_scalar (the emitter's permission to write plain) is a parameter of the model, observed on the real emitter",
         "strings are sequences of Unicode scalar values (no lone surrogates)",
         "instances of restricted types are compared as their base type: a value equal to the default is returned as the plain base type by adapt_typehints",
@@ -703,10 +733,24 @@ def run(ctx: Ctx):
     if not ctx.thorough:
         short = [w for w in short if len(w) <= 2] + [ctx.rng.choice(short) for _ in range(1500)]
     longish = [ctx.rng.choice(["word ", "x", "a b ", "'", '"', "\xe9 "]) * ctx.rng.randint(8, 40) for _ in range(30)]
+    # long texts without a space are never folded (plain / single-quoted): inside the model whatever their length
+    longish += [ctx.rng.choice(["/path/to", "1e3", "0x1f_", "a:b", "#", "it's", "\xe9", "a,b", "-", "\t", "\\", "x" * 30 + " "]) * ctx.rng.randint(9, 60)
+                for _ in range(40)]
     bad += correspond_emitter(ctx, m, short + all_strings[: ctx.budget(700, 6000)] + longish, "generated")
     bad += correspond_lines(ctx, m, ctx.rng, ctx.budget(1500, 15000))
     ctx.extra["emitter_exhaustive"] = {"alphabet": len(EMIT_ALPHABET), "max_len": 3 if ctx.thorough else 2}
     lap("emitter_scanner_correspondence")
+    # whole documents: block emitter / loader model vs yaml_dump / yaml_load, emitted texts and perturbed layouts
+    doc_corpus = [D.decode_doc(c["doc"]) for c in corpus if c.get("kind") == "doc"]
+    import sys as _sys
+
+    bad += D.correspond_docs(ctx, m, _sys.modules[__name__], ctx.rng, sg_seed, ctx.budget(500, 5000) * boost(4), ctx.budget(1000, 10000) * boost(4), doc_corpus)
+    bad += D.correspond_json_docs(ctx, m, _sys.modules[__name__], ctx.rng, sg_fixed if False else E.StrGen(m, ctx.rng), ctx.budget(300, 3000) * boost(4),
+                                  ctx.budget(900, 9000) * boost(4), doc_corpus)
+    lap("document_correspondence")
+    # dump(skip_default=True): delKV / reparse vs _dump_delete_default_entries / parse_object, and the property under leafStable
+    bad += S.correspond_skip_default(ctx, m, _sys.modules[__name__], ctx.rng, ctx.budget(400, 4000) * boost(4))
+    lap("skip_default_correspondence")
     numbers = [None, True, False] + E.INTS + E.FLOATS + [math.inf, -math.inf, math.nan] + \
         [ctx.rng.randint(-10 ** 30, 10 ** 30) for _ in range(ctx.budget(100, 1000))] + \
         [ctx.rng.uniform(-1, 1) * 10 ** ctx.rng.randint(-300, 300) for _ in range(ctx.budget(200, 2000))]
@@ -731,6 +775,9 @@ def run(ctx: Ctx):
                 else:
                     scalar_violation(ctx, s, fmt, "str value %r: %s after dump(format=%s)" % (s, why, fmt), "probe")
 
+    # whole documents through the real dump / load functions (yaml, json, json_indented), model-independent
+    D.oracle_docs(ctx, ctx.rng, sg_seed, ctx.budget(500, 5000) * boost(4), doc_corpus)
+    D.oracle_docs(ctx, fixed_rng, sg_fixed, ctx.budget(200, 2000))
     lap("numbers_and_probe")
     # ---------------- 4. end-to-end oracle
     variants = E.all_variants()
@@ -744,13 +791,13 @@ def run(ctx: Ctx):
         if not res.accepted:
             raise MachineryError("corpus case is no longer accepted: %s (%s)" % (c.get("name"), res.reject_reason))
         ctx.nontrivial("e:" + json.dumps(c["case"], sort_keys=True, default=repr))
-    n_seed = ctx.budget(400, 4500) * boost(3)
+    n_seed = ctx.budget(300, 3000) * boost(3)
     accepted = 0
     for i in range(n_seed):
         if enough(ctx):
             break
         case = E.gen_case(ctx.rng, sg_seed, CLEAN_PROFILE)
-        res = judge_case(ctx, case, variants, "generated")
+        res = judge_case(ctx, case, E.pick_variants(variants, ctx.rng), "generated")
         if res.accepted:
             accepted += 1
             if case["obj"]:
@@ -759,12 +806,12 @@ def run(ctx: Ctx):
                 ctx.sample({"spec": [(a["name"], E.type_shape(a["type"])) for a in case["spec"]["args"]], "obj": case["obj"]})
     lap("e2e_corpus_and_seed_driven")
     # wider exploration with a fixed internal seed (known-finding classes allowed; anything else is a violation)
-    n_wide = ctx.budget(280, 3500) * boost(3)
+    n_wide = ctx.budget(200, 2200) * boost(3)
     for i in range(n_wide):
         if enough(ctx):
             break
         case = E.gen_case(fixed_rng, sg_fixed, WIDE_PROFILE)
-        res = judge_case(ctx, case, variants, "wide-fixed-seed")
+        res = judge_case(ctx, case, E.pick_variants(variants, fixed_rng), "wide-fixed-seed")
         if res.accepted and case["obj"]:
             ctx.nontrivial("e:" + json.dumps(case, sort_keys=True, default=repr))
     ctx.extra["e2e"] = {"corpus": n_corpus, "seed_driven": n_seed, "seed_driven_accepted": accepted, "wide_fixed_seed": n_wide,
@@ -826,6 +873,7 @@ def run_oracle_only(ctx):
             if why and not known_scalar(ctx, s, fmt):
                 scalar_violation(ctx, s, fmt, "str value %r: %s after dump(format=%s)" % (s, why, fmt), "corpus")
     sg = FallbackGen(ctx.rng, strings)
+    D.oracle_docs(ctx, ctx.rng, sg, ctx.budget(500, 5000), [D.decode_doc(c["doc"]) for c in corpus if c.get("kind") == "doc"])
     variants = [v for v in E.all_variants() if not E._is_comments(v)]
     for c in corpus:
         if c.get("kind") == "e2e":
@@ -857,6 +905,8 @@ def replay_witness(w):
     if w.get("kind") == "e2e":
         res = E.run_case(w["case"], [w["variant"]])
         return bool(res.failures)
+    if w.get("kind") == "doc":
+        return D.doc_roundtrip(D.decode_doc(w["doc"]), w["format"]) is not None
     raise MachineryError("unknown witness kind %r" % (w.get("kind"),))
 
 
@@ -888,6 +938,13 @@ def replay(ctx: Ctx, body):
         if not res.failures:
             print("round trip holds")
         return 1 if res.failures else 0
+    if kind == "skipdef":
+        return S.replay_skipdef(r)
+    if kind == "doc":
+        d = D.decode_doc(r["doc"])
+        why = D.doc_roundtrip(d, r["format"])
+        print("document %r, format %s: %s" % (d, r["format"], why or "round trip holds"))
+        return 1 if why else 0
     if kind == "image":
         m = get_model(ctx)
         why = image_text_misread(m, r["image"], r["text"])
